@@ -35,3 +35,43 @@ R.contract(
     modifies=[LEN.replace("arg_result", "result")],
     note="temporary leniency is restored on every exit, normal or exceptional",
 )
+
+# ---------------------------------------------------------------- leading-token extraction (C03)
+R.spec_fn("plain_token", [("t", "str")], "len(t) > 0 and t != '--' and not t.startswith('-')", "bool")
+GAT = M_DEF + ":DefaultResolver.get_arguments_to_test"
+R.local_kinds = getattr(R, "local_kinds", {})
+R.local_kinds[GAT] = {"arguments_to_test": "list[str]"}
+T = "iter_seq(tokens)"
+P0 = "old(iter_pos(tokens))"
+R.contract(
+    GAT,
+    params={"tokens": "iter[str]"},
+    returns="list[str]",
+    ensures=[
+        # the result is the longest prefix of the remaining tokens made of plain (non-empty, non-option, non '--') tokens
+        "0 <= %s and %s <= len(%s) - len(result)" % (P0, P0, T),
+        "seq(result) == %s[%s:%s + len(result)]" % (T, P0, P0),
+        "all(plain_token(t) for t in result)",
+        "0 <= %s and %s + len(result) <= len(%s) and "
+        "(%s + len(result) == len(%s) or not plain_token(%s[%s + len(result)]))" % (P0, P0, T, P0, T, T, P0),
+        # the iterator stands just after the first token that is not part of the result
+        "iter_pos(tokens) == (%s + len(result) + 1 if %s + len(result) < len(%s) else len(%s))" % (P0, P0, T, T),
+        "iter_seq(tokens) == old(iter_seq(tokens))",
+    ],
+    modifies=["ITER(tokens)"],
+)
+R.loop(
+    GAT, 0,
+    invariants=[
+        "iter_seq(tokens) == old(iter_seq(tokens))",
+        "all(plain_token(t) for t in arguments_to_test)",
+        "0 <= %s and %s <= iter_pos(tokens) and iter_pos(tokens) <= len(%s) and "
+        "implies(token is None, iter_pos(tokens) == len(%s) and seq(arguments_to_test) == %s[%s:len(%s)]) and "
+        "implies(token is not None, iter_pos(tokens) >= %s + 1 and token == %s[iter_pos(tokens) - 1] and "
+        "seq(arguments_to_test) == %s[%s:iter_pos(tokens) - 1])" % (P0, P0, T, T, T, P0, T, P0, T, T, P0),
+    ],
+    decreases="len(%s) - iter_pos(tokens) + (0 if token is None else 1)" % T,
+    modifies=["items(arguments_to_test)", "ITER(tokens)"],
+    var_kinds={"token": "str?"},
+    fingerprint="token",
+)
